@@ -790,14 +790,15 @@ impl ZmtpEngine {
       }
 
       let is_more = msg.is_more();
-      if self.partial_batch.len() >= FrameBatch::MAX_FRAMES {
-        // One more frame would overflow the batch (and panic): refuse the message.
+      if self.partial_batch.len() >= FrameBatch::MAX_WIRE_FRAMES {
+        // One more frame would leave no room for the envelope frames the receiving
+        // socket may add (and overflow the batch, which panics): refuse the message.
         self.phase = ZmtpPhase::Closed;
         out
           .app_actions
           .push(AppAction::PeerError(ZmqError::ProtocolViolation(format!(
             "Multipart message exceeds {} frames",
-            FrameBatch::MAX_FRAMES
+            FrameBatch::MAX_WIRE_FRAMES
           ))));
         return;
       }
